@@ -11,7 +11,9 @@
                       presence, is True / is not False, timestamps compared as instants, and / or / not),
                       CLegalHashes, CSocketOptions (repaired variant vr_sock_int);
      __init__ forms   init_proved (unchanged).
-   Not covered (yet): CPatternValidator, KObservable, KStixObject, IMarkingDefinition / CTlp.
+   and CPatternValidator (2.1: pattern_type a required string property), KObservable (every registered
+   observable class covered and writing its own `type`).
+   Not covered (yet): KStixObject (Bundle), IMarkingDefinition / CTlp (MarkingDefinition).
    lib_covered2 lists the classes of the generated tables for which class_proved2 holds; it is
    recomputed by the kernel on every build (coverage_counts = (|lib_covered2|, |lib_covered|, all)).   *)
 From Coq Require Import NArith ZArith List String Bool.
